@@ -20,6 +20,42 @@ theorem pad256_of_len (b : Bytes) (h : b.length = 256) : Impl.pad256 b = b := by
   unfold Impl.pad256
   simp [h]
 
+theorem leN_zero (j : Nat) : Bin.leN j 0 = List.replicate j 0 := by
+  induction j with
+  | zero => rfl
+  | succ j ih => simp [Bin.leN, ih, List.replicate_succ]
+
+theorem leN_extend (k j n : Nat) (h : n < 256 ^ k) :
+    Bin.leN (k + j) n = Bin.leN k n ++ List.replicate j 0 := by
+  induction k generalizing n with
+  | zero =>
+    have : n = 0 := by simpa using h
+    subst this
+    simp [Bin.leN, leN_zero]
+  | succ k ih =>
+    have h2 : n / 256 < 256 ^ k := by
+      rw [Nat.pow_succ] at h
+      exact Nat.div_lt_of_lt_mul (by omega)
+    rw [show k + 1 + j = (k + j) + 1 by omega]
+    simp only [Bin.leN, ih _ h2, List.cons_append]
+
+/-- `pad256` of at most 256 bytes is the 2048-bit big-endian form of the number. -/
+theorem pad256_eq_pad (b : Bytes) (h : b.length ≤ 256) : Impl.pad256 b = Spec.pad (beNat b) := by
+  unfold Impl.pad256 Spec.pad
+  by_cases h256 : b.length ≥ 256
+  · have hl : b.length = 256 := by omega
+    rw [if_pos h256, hl, Nat.sub_self, List.drop_zero, ← hl, beBytes_beNat]
+  · rw [if_neg h256]
+    unfold beBytes
+    have hlt := beNat_lt b
+    rw [show 256 = b.length + (256 - b.length) by omega, leN_extend _ _ _ hlt, List.reverse_append,
+      List.reverse_replicate]
+    have := beBytes_beNat b
+    unfold beBytes at this
+    rw [this]
+    congr 2
+    omega
+
 theorem pad_beNat (b : Bytes) (h : b.length = 256) : Spec.pad (beNat b) = b := by
   unfold Spec.pad
   rw [← h, beBytes_beNat]
@@ -56,7 +92,7 @@ theorem secondary_eq_PH2 (S : SrpPrims) (pw s1 s2 : Bytes) :
     iters_eq.1, iters_eq.2]
 
 theorem impl_eq_spec (S : SrpPrims) (hS : LawfulSrp S) (isPrime : Int → Bool)
-    (pw srpB random : Bytes) (i : Input) (hp : i.p.length = 256) (hb : srpB.length = 256)
+    (pw srpB random : Bytes) (i : Input) (hp : i.p.length = 256) (hb : srpB.length ≤ 256)
     (hgrp : C13.checkDH isPrime i.g ((beNat i.p : Nat) : Int) = .ok) :
     Impl.srpHash S isPrime pw srpB random i =
       .ok (Spec.answer S (beNat i.p) i.g.toNat (beNat random) (beNat srpB) pw i.salt1 i.salt2) := by
@@ -70,7 +106,7 @@ theorem impl_eq_spec (S : SrpPrims) (hS : LawfulSrp S) (isPrime : Int → Bool)
   rw [pad256FromBig_of_lt _ (hlt _)]
   simp only
   unfold Spec.answer Spec.M1of Spec.sA Spec.gA Spec.u Spec.v Spec.x Spec.k Spec.H
-  rw [pad_beNat i.p hp, pad_beNat srpB hb, pad256_of_len srpB hb, secondary_eq_PH2]
+  rw [pad_beNat i.p hp, pad256_eq_pad srpB hb, secondary_eq_PH2]
   simp only [Impl.hash, Impl.xor32, Spec.pad, List.flatten_cons, List.flatten_nil, List.append_nil,
     List.append_assoc]
   have hkv : (beNat (S.sha256 (i.p ++ beBytes 256 i.g.toNat)) * (i.g.toNat ^ beNat (Spec.PH2 S pw i.salt1 i.salt2) % beNat i.p)) % beNat i.p < beNat i.p :=
